@@ -694,6 +694,17 @@ pub struct Adversary {
     /// called at `Stage::Evals` (after `eval_overrides`), with challenges up to
     /// z and all polynomials available; may rewrite `evals`.
     pub forge: Option<Box<dyn Fn(&mut Intermediates) + Send + Sync>>,
+    /// Members of the batched opening at z, as indices into the standard list
+    /// `OPENING_MEMBERS` (r, a, b, c, d, s_sigma_1..3, q_arith, q_c, q_l, q_r),
+    /// member i weighted v^i; `None` entries consume a power of v without adding
+    /// a polynomial. Default (None) = the standard twelve. `opening_list_v1()`
+    /// is the legacy-profile (V1) shape without the four selector polynomials.
+    pub opening_list: Option<Vec<Option<usize>>>,
+    /// Transcript-omission bet: do not absorb `z_comm`, and derive the round-3
+    /// challenges (alpha, separation challenges) *before* `Stage::Perm`, so the
+    /// stage hook can choose z(X) knowing alpha. Against a verifier that does
+    /// absorb z_comm the resulting proof uses the wrong challenges.
+    pub skip_absorb_z_comm: bool,
     /// general hook, called at every stage before the stage's data is
     /// committed / absorbed.
     pub stage_hook: Option<Box<dyn Fn(Stage, &mut Intermediates) + Send + Sync>>,
@@ -746,7 +757,7 @@ pub const K1: u64 = 7;
 pub const K2: u64 = 13;
 pub const K3: u64 = 17;
 
-fn blind(unblinded: &[Fe], blinders: &[Fe], n: usize) -> Poly {
+pub fn blind(unblinded: &[Fe], blinders: &[Fe], n: usize) -> Poly {
     // mask = (b0 + b1 X + ...) * (X^n - 1)
     let mut c = unblinded.to_vec();
     c.resize(n, zero());
@@ -766,6 +777,65 @@ pub fn serialize(comms: &[G1Affine; 11], evals: &[Fe; 15]) -> Vec<u8> {
         out.extend_from_slice(&e.to_bytes());
     }
     out
+}
+
+pub const OPENING_MEMBERS: [&str; 12] = ["r", "a", "b", "c", "d", "s_sigma_1", "s_sigma_2", "s_sigma_3", "q_arith", "q_c", "q_l", "q_r"];
+/// The legacy-profile (V1) batched opening: r, a, b, c, d, s_sigma_1..3.
+pub fn opening_list_v1() -> Vec<Option<usize>> {
+    (0..8).map(Some).collect()
+}
+
+/// The linearisation polynomial r(X) for the given evaluations: the polynomial
+/// counterpart of the verifier's D (without the u*[z] term) plus the constant
+/// PI(z). Needs `im` up to `Stage::Evals` (challenges up to z, z_poly,
+/// t_chunks, pi_eval, l1_eval, zh_eval).
+pub fn linearisation_poly(pd: &ProverData, im: &Intermediates, e: &[Fe; 15]) -> Poly {
+    let n = im.n;
+    let q = &pd.selectors;
+    let (alpha, beta, gamma, z) = (im.ch.alpha, im.ch.beta, im.ch.gamma, im.ch.z);
+    let ca = [e[E_A]];
+    let cb = [e[E_B]];
+    let cc = [e[E_C]];
+    let cd = [e[E_D]];
+    let caw = [e[E_AW]];
+    let cbw = [e[E_BW]];
+    let cdw = [e[E_DW]];
+    let ws = WireSet { a: &ca, b: &cb, c: &cc, d: &cd, aw: &caw, bw: &cbw, dw: &cdw };
+    let scalar = |p: Poly| -> Fe { peval(&p, zero()) };
+    let arith = pscale(
+        &sum(&[pscale(&q[0], e[E_A] * e[E_B]), pscale(&q[1], e[E_A]), pscale(&q[2], e[E_B]), pscale(&q[3], e[E_C]), pscale(&q[4], e[E_D]), q[5].clone()]),
+        e[E_QARITH],
+    );
+    let range = pscale(&q[7], scalar(range_identity(&ws, im.ch.range_sep)) * im.ch.range_sep);
+    let logic = pscale(&q[8], scalar(logic_identity(&ws, &[e[E_QC]], im.ch.logic_sep)) * im.ch.logic_sep);
+    let fixed = pscale(&q[9], scalar(fixed_identity(&ws, &[e[E_QL]], &[e[E_QR]], &[e[E_QC]], im.ch.fixed_sep)) * im.ch.fixed_sep);
+    let var = pscale(&q[10], scalar(var_identity(&ws, im.ch.var_sep)) * im.ch.var_sep);
+    // permutation part
+    let id_k = alpha * (e[E_A] + beta * z + gamma) * (e[E_B] + beta * fe(K1) * z + gamma) * (e[E_C] + beta * fe(K2) * z + gamma) * (e[E_D] + beta * fe(K3) * z + gamma);
+    let copy_k = alpha * beta * e[E_Z] * (e[E_A] + beta * e[E_S1] + gamma) * (e[E_B] + beta * e[E_S2] + gamma) * (e[E_C] + beta * e[E_S3] + gamma);
+    let perm = sum(&[pscale(&im.z_poly, id_k), pscale(&pd.sigmas[3], -copy_k), pscale(&im.z_poly, alpha * alpha * im.l1_eval)]);
+    // Constant term: M3 states it as PI(z) = sum_rows PI_i * L_i(z). The real
+    // prover feeds the *sparse* public-input vector to its barycentric
+    // evaluation (values treated as sitting on rows 0,1,2,...), so its r(X)
+    // has a different constant term whenever a public input is not on
+    // those rows. The constant cancels in floor(r + ... / (X - z)), hence
+    // no proof byte depends on it (confirmed by byte equality on circuits
+    // with public inputs on rows >= 4).
+    // quotient part
+    let zn = fpow(z, n as u64);
+    let tq = sum(&[im.t_chunks[0].clone(), pscale(&im.t_chunks[1], zn), pscale(&im.t_chunks[2], zn * zn), pscale(&im.t_chunks[3], zn * zn * zn)]);
+    sum(&[arith, range, logic, fixed, var, vec![im.pi_eval], perm, pscale(&tq, -im.zh_eval)])
+}
+
+/// The relation the verifier's equation imposes on the evaluations at z:
+/// D(z) + r0 where D is the linearisation polynomial without the PI constant
+/// and r0 = PI(z) - alpha^2 L1(z) - alpha (a+beta s1+gamma)(b+beta s2+gamma)
+/// (c+beta s3+gamma)(d+gamma) z_w. Zero for an honest proof of a satisfied
+/// instance; a forger solves one evaluation so that it vanishes.
+pub fn balance(pd: &ProverData, im: &Intermediates, e: &[Fe; 15]) -> Fe {
+    let (alpha, beta, gamma) = (im.ch.alpha, im.ch.beta, im.ch.gamma);
+    let r_at_z = peval(&linearisation_poly(pd, im, e), im.ch.z);
+    r_at_z - alpha * alpha * im.l1_eval - alpha * (e[E_A] + beta * e[E_S1] + gamma) * (e[E_B] + beta * e[E_S2] + gamma) * (e[E_C] + beta * e[E_S3] + gamma) * (e[E_D] + gamma) * e[E_Z]
 }
 
 pub fn prove(pd: &ProverData, inst: &Instance, draws: &[Fe; 14], ver: Version, adv: &Adversary) -> Result<(Vec<u8>, Intermediates), String> {
@@ -849,16 +919,26 @@ pub fn prove(pd: &ProverData, inst: &Instance, draws: &[Fe; 14], ver: Version, a
     im.z_vec = zv;
     im.z_poly_unblinded = idft(&im.z_vec, &pts);
     im.z_poly = blind(&im.z_poly_unblinded, &draws[8..11], n);
+    // An adversary betting that the verifier does not absorb z_comm knows the
+    // round-3 challenges before it fixes z(X).
+    let round3 = |fs: &mut Fs, im: &mut Intermediates| {
+        im.ch.alpha = fs.challenge(b"alpha");
+        im.ch.range_sep = fs.challenge(b"range separation challenge");
+        im.ch.logic_sep = fs.challenge(b"logic separation challenge");
+        im.ch.fixed_sep = fs.challenge(b"fixed base separation challenge");
+        im.ch.var_sep = fs.challenge(b"variable base separation challenge");
+    };
+    if adv.skip_absorb_z_comm {
+        round3(&mut fs, &mut im);
+    }
     hook(Stage::Perm, &mut im);
     im.comms[C_Z] = commit(key, &im.z_poly)?;
-    fs.point(b"z_comm", &im.comms[C_Z]);
 
     // ---- round 3: quotient
-    im.ch.alpha = fs.challenge(b"alpha");
-    im.ch.range_sep = fs.challenge(b"range separation challenge");
-    im.ch.logic_sep = fs.challenge(b"logic separation challenge");
-    im.ch.fixed_sep = fs.challenge(b"fixed base separation challenge");
-    im.ch.var_sep = fs.challenge(b"variable base separation challenge");
+    if !adv.skip_absorb_z_comm {
+        fs.point(b"z_comm", &im.comms[C_Z]);
+        round3(&mut fs, &mut im);
+    }
     let alpha = im.ch.alpha;
     {
         let [a, b, c, d] = &im.wire_polys;
@@ -978,60 +1058,11 @@ pub fn prove(pd: &ProverData, inst: &Instance, draws: &[Fe; 14], ver: Version, a
     // ---- round 5: linearisation and openings
     im.ch.v = fs.challenge(b"v_challenge");
     {
-        let e = im.evals;
         let q = &pd.selectors;
-        let ca = [e[E_A]];
-        let cb = [e[E_B]];
-        let cc = [e[E_C]];
-        let cd = [e[E_D]];
-        let caw = [e[E_AW]];
-        let cbw = [e[E_BW]];
-        let cdw = [e[E_DW]];
-        let ws = WireSet { a: &ca, b: &cb, c: &cc, d: &cd, aw: &caw, bw: &cbw, dw: &cdw };
-        let scalar = |p: Poly| -> Fe { peval(&p, zero()) };
-        let arith = pscale(
-            &sum(&[
-                pscale(&q[0], e[E_A] * e[E_B]),
-                pscale(&q[1], e[E_A]),
-                pscale(&q[2], e[E_B]),
-                pscale(&q[3], e[E_C]),
-                pscale(&q[4], e[E_D]),
-                q[5].clone(),
-            ]),
-            e[E_QARITH],
-        );
-        let range = pscale(&q[7], scalar(range_identity(&ws, im.ch.range_sep)) * im.ch.range_sep);
-        let logic = pscale(&q[8], scalar(logic_identity(&ws, &[e[E_QC]], im.ch.logic_sep)) * im.ch.logic_sep);
-        let fixed = pscale(&q[9], scalar(fixed_identity(&ws, &[e[E_QL]], &[e[E_QR]], &[e[E_QC]], im.ch.fixed_sep)) * im.ch.fixed_sep);
-        let var = pscale(&q[10], scalar(var_identity(&ws, im.ch.var_sep)) * im.ch.var_sep);
-        // permutation part
-        let id_k = alpha
-            * (e[E_A] + beta * z + gamma)
-            * (e[E_B] + beta * fe(K1) * z + gamma)
-            * (e[E_C] + beta * fe(K2) * z + gamma)
-            * (e[E_D] + beta * fe(K3) * z + gamma);
-        let copy_k = alpha * beta * e[E_Z] * (e[E_A] + beta * e[E_S1] + gamma) * (e[E_B] + beta * e[E_S2] + gamma) * (e[E_C] + beta * e[E_S3] + gamma);
-        let perm = sum(&[pscale(&im.z_poly, id_k), pscale(&pd.sigmas[3], -copy_k), pscale(&im.z_poly, alpha * alpha * im.l1_eval)]);
-        // Constant term: M3 states it as PI(z) = sum_rows PI_i * L_i(z). The real
-        // prover feeds the *sparse* public-input vector to its barycentric
-        // evaluation (values treated as sitting on rows 0,1,2,...), so its r(X)
-        // has a different constant term whenever a public input is not on
-        // those rows. The constant cancels in floor(r + ... / (X - z)), hence
-        // no proof byte depends on it (confirmed by byte equality on circuits
-        // with public inputs on rows >= 4).
-        // quotient part
-        let zn = fpow(z, n as u64);
-        let tq = sum(&[
-            im.t_chunks[0].clone(),
-            pscale(&im.t_chunks[1], zn),
-            pscale(&im.t_chunks[2], zn * zn),
-            pscale(&im.t_chunks[3], zn * zn * zn),
-        ]);
-        let r = sum(&[arith, range, logic, fixed, var, vec![im.pi_eval], perm, pscale(&tq, -im.zh_eval)]);
-        im.r_poly = r;
+        im.r_poly = linearisation_poly(pd, &im, &im.evals);
         // W_z
         let v = im.ch.v;
-        let members: [&[Fe]; 12] = [
+        let standard: [&[Fe]; 12] = [
             &im.r_poly,
             &im.wire_polys[0],
             &im.wire_polys[1],
@@ -1045,10 +1076,16 @@ pub fn prove(pd: &ProverData, inst: &Instance, draws: &[Fe; 14], ver: Version, a
             &q[1],
             &q[2],
         ];
+        let list: Vec<Option<usize>> = match &adv.opening_list {
+            Some(l) => l.clone(),
+            None => (0..12).map(Some).collect(),
+        };
         let mut agg: Poly = vec![];
         let mut pw = one();
-        for m in members.iter() {
-            agg = padd(&agg, &pscale(m, pw));
+        for m in list.iter() {
+            if let Some(k) = m {
+                agg = padd(&agg, &pscale(standard[*k], pw));
+            }
             pw *= v;
         }
         im.w_z_poly = pdiv_linear(&ptrim(&agg), z).0;
